@@ -69,6 +69,14 @@ def _frac_term(r, g, targets=None, nobj=None, names=None):
                 nk = -nk
             for c, s_ in b['e']:
                 coef[s_] = coef.get(s_, 0) + nk * int(c)
+        if r.random() < 0.5 and idxs:
+            # left-over part: the numerator cancels only partially
+            for s_ in r.sample(idxs, r.randint(1, min(2, len(idxs)))):
+                coef[s_] = coef.get(s_, 0) + r.choice([1, -1, 2, -2])
+        if r.random() < 0.3:
+            # common factor that has to be pulled out of the numerator
+            fac = r.choice([2, 3, -2])
+            coef = {s_: v * fac for s_, v in coef.items()}
         num = [[str(v), s_] for s_, v in coef.items() if v]
         if num:
             objs.append({'t': 'br', 'e': num, 'exp': 1})
